@@ -156,6 +156,67 @@ def file_case(ctx, rng, idx, pending):
                                **({'limit': limit} if limit is not None else {})}, {'rows': got}))
 
 
+def cast_case(ctx, rng, idx):
+    """schema casting with offending rows: typed values, or the row handled as on_error says; limit_rows on top"""
+    import decimal
+    from dataflows.base.schema_validator import ValidationError
+    rep = ctx.report
+    n = rng.choice([3, 6, 12])
+    bad_at = sorted(rng.sample(range(2, n), rng.choice([0, 1, 1, 2]) if n > 3 else rng.choice([0, 1])))
+    rows = [[str(i), ('n/a' if i in bad_at else '%d.5' % i), 'name%d' % i] for i in range(n)]
+    path = os.path.join(ctx.scratch, 'cast%d.csv' % idx)
+    write_csv(path, ['id', 'qty', 'name'], rows)
+    how = rng.choice(['override_fields', 'sample_size'])
+    policy = rng.choice(['raise', 'drop', 'ignore', 'clear'])
+    limit = rng.choice([None, 0, 1, 2, 3, 5, 100])
+    kw = dict(cast_strategy=Load.CAST_WITH_SCHEMA,
+              on_error={'raise': Load.ERRORS_RAISE, 'drop': Load.ERRORS_DROP, 'ignore': Load.ERRORS_IGNORE,
+                        'clear': Load.ERRORS_CLEAR}[policy])
+    if how == 'override_fields':
+        kw['override_fields'] = {'qty': {'type': 'number'}}
+    else:
+        kw['sample_size'] = 2
+    if limit is not None:
+        kw['limit_rows'] = limit
+    case = {'cast-case': {'rows': rows, 'typed_by': how, 'on_error': policy, 'limit_rows': limit, 'bad_rows': bad_at}}
+    err = None
+    try:
+        with quiet():
+            res, dp, _ = Flow(DF.load(path, **kw)).results(on_error=None)
+    except Exception as e:  # noqa
+        err = e
+    rep.case('load:cast:' + policy, case, nontrivial=bool(bad_at))
+    rep.hist('cast_policy', policy)
+    lim = n if limit is None else limit
+
+    def typed(r, bad):
+        q = r[1] if (bad and policy == 'ignore') else (None if bad else decimal.Decimal(r[1]))
+        return {'id': int(r[0]), 'qty': q, 'name': r[2]}
+    if policy == 'raise':
+        expect_err = any(i < lim for i in bad_at)
+        if expect_err != (err is not None):
+            rep.fail('cast:raise:%s' % ('offending-row-accepted' if expect_err else 'raises-without-offending-row'), case, repr(err)[:300])
+        elif err is not None and not isinstance(getattr(err, 'cause', err), ValidationError):
+            rep.fail('cast:raise:wrong-error', case, repr(err)[:300])
+        if err is not None or expect_err:
+            return
+        want = [typed(r, False) for r in rows[:lim]]
+    else:
+        if err is not None:
+            rep.fail('cast:%s:raises' % policy, case, repr(err)[:300])
+            return
+        if policy == 'drop':
+            want = [typed(r, False) for i, r in enumerate(rows) if i not in bad_at][:lim]
+        else:
+            want = [typed(r, i in bad_at) for i, r in enumerate(rows)][:lim]
+    got = [dict(r) for r in res[0]]
+    if got != want:
+        sig = 'cast:%s:%s' % (policy, 'row-count' if len(got) != len(want) else 'values')
+        if limit is not None and len(got) != len(want):
+            sig = 'cast:%s:limit_rows-not-exactly-n' % policy
+        rep.fail(sig, case, {'expected': repr(want)[:600], 'got': repr(got)[:600]})
+
+
 def selection_case(ctx, rng, idx):
     """load from a data package on disk / from (descriptor, iterators): exactly the requested resources"""
     rep = ctx.report
@@ -211,7 +272,7 @@ def run(ctx):
     rep.rule = ('generated CSV files (quotes, delimiters, newlines in cells, unicode, surrounding blanks incl. tabs and NBSP, '
                 'numeric-looking and empty cells, duplicate headers differing or not in case, headers that already look '
                 'like generated names) x infer/cast strategy x strip x limit_rows (0 included) x name x de-duplication '
-                'flags, compared with an independent csv.reader pass; packages / (descriptor, iterators) x selector forms; '
+                'flags, compared with an independent csv.reader pass; typed columns with offending cells x on_error (raise / drop / ignore / clear) x limit_rows; packages / (descriptor, iterators) x selector forms; '
                 'non-trivial = at least one data row')
     rep.assumptions = ['tabulator parsing and Schema.infer are third-party: faithfulness of the parse is by comparison only',
                        'the empty cell is the missing value of Table Schema']
@@ -221,6 +282,9 @@ def run(ctx):
         file_case(ctx, rng, idx, pending)
     for idx in range(ctx.n(120, 1200)):
         selection_case(ctx, rng, idx)
+    rng_c = ctx.rng('cast')
+    for idx in range(ctx.n(250, 3000)):
+        cast_case(ctx, rng_c, idx)
     if ctx.model.available():
         outs = ctx.model.run([op for _, op, _ in pending])
         for (case, op, real), mo in zip(pending, outs):
